@@ -515,20 +515,30 @@ fn drop_token_tree_trailing_commas(items: Vec<Item>) -> (Vec<Item>, usize) {
     while i < n {
         // inside token trees the `::` directly before `<` (generic arguments) is optional in type
         // position and the formatter drops it there; token trees carry no type/expression
-        // distinction, so it is ignored on both sides
-        if matches!(&items[i], Item::Open(k) if k == "TokenTreeLeaf")
-            && i + 2 < n
-            && matches!(&items[i + 1], Item::Tok(t) if t == "TerminalColonColon:::")
-            && items[i + 2] == Item::Close
-        {
-            let mut j = i + 3;
-            while j < n && matches!(&items[j], Item::Close | Item::Open(_) | Item::Cw(..)) {
-                j += 1;
+        // distinction, so it is ignored on both sides (comments attached to it stay)
+        if matches!(&items[i], Item::Open(k) if k == "TokenTreeLeaf") {
+            let mut e = i + 1;
+            let mut cc = 0;
+            let mut other = false;
+            while e < n && items[e] != Item::Close {
+                match &items[e] {
+                    Item::Cw(..) => {}
+                    Item::Tok(t) if t == "TerminalColonColon:::" => cc += 1,
+                    _ => other = true,
+                }
+                e += 1;
             }
-            if matches!(items.get(j), Some(Item::Tok(t)) if t == "TerminalLT:<") {
-                dropped += 1;
-                i += 3;
-                continue;
+            if e < n && cc == 1 && !other {
+                let mut j = e + 1;
+                while j < n && matches!(&items[j], Item::Close | Item::Open(_) | Item::Cw(..)) {
+                    j += 1;
+                }
+                if matches!(items.get(j), Some(Item::Tok(t)) if t == "TerminalLT:<") {
+                    dropped += 1;
+                    out.extend(items[i + 1..e].iter().filter(|x| matches!(x, Item::Cw(..))).cloned());
+                    i = e + 1;
+                    continue;
+                }
             }
         }
         if matches!(&items[i], Item::Open(k) if k == "TokenTreeLeaf") {
